@@ -173,7 +173,7 @@ def cells_match(rep, rule, inst, cells_img, cells_tgt, key, proviso=None, fb=Non
     rep.ob(rule, inst, bad is None, bad or "image under the symmetry equals the sibling component on every cell", key=key + "|" + (bad or "")[:100])
 
 
-CASE_SPLIT = "decisions"     # both outcomes of a branch on a whole-array reduction are analysed; size orderings are not split here
+CASE_SPLIT = True     # orderings between grid sizes and branches on free inputs are analysed case by case
 _PATH_DIGESTS = {}
 
 
